@@ -28,7 +28,15 @@ pub fn def() -> CheckDef {
 }
 
 pub fn flags() -> Flags {
-    Flags { property: "C07", dump_each: true, imgck_each: true, imgck_dump: true, final_check: true, ..Default::default() }
+    Flags {
+        property: "C07",
+        dump_each: true,
+        imgck_each: true,
+        imgck_dump: true,
+        final_check: true,
+        scope: &["model.", "dump.", "imgck.", "panic", "hang", "reopen.permissive-differs", "reopen.strict-differs"],
+        ..Default::default()
+    }
 }
 
 pub fn gen(seed: u64, idx: u64, _tier: Tier) -> Case {
